@@ -144,8 +144,6 @@ func buildBaseApiUrlString(annotationName string, ctx *parser.AnnotationContext)
 			}
 		} else if ctx.ElementValue() != nil {
 			baseApiUrl = trimQuote(ctx.ElementValue().GetText())
-		} else {
-			baseApiUrl = "/"
 		}
 	}
 }
